@@ -445,6 +445,14 @@ def tls_arms(ctx, facts):
     hdr = re.compile(r"SetClientIdentityFromHeader::<S, F>::new$")
     crt = re.compile(r"ClientCertRecognizingAcceptor::<F>::new$")
     hb = fn_refs(b, hdr)
+    # the header layer may be installed by a small helper of the server module (`plaintext_make_service(router)`): a call
+    # of such a helper counts as installing the layer, and the helper may be called from start_on only
+    wrappers = {}
+    for ob in facts.non_test_bodies():
+        if ob.root != root and ob.path.startswith("net::server::") and "::{closure" not in ob.path and fn_refs(ob, hdr) and not fn_refs(ob, crt):
+            wrappers[ob.path] = ob
+    wcalls = [bb2 for bb2, t2 in b.calls() if (F.callee(t2)[0] or "") in wrappers]
+    hb = hb + wcalls
     ctx.floor("ARM-tls", "header-layer references", len(hb), 1)
     # use sites: what each started server is given (decides the property); the construction site is only a fallback
     spawns = [(bb2, t2) for bb2, t2 in b.calls() if (F.callee(t2)[0] or "").endswith("spawn_server")]
@@ -452,11 +460,11 @@ def tls_arms(ctx, facts):
     for n, (sbb, st) in enumerate(spawns):
         server = str(flow.expr_of(b, st["args"][1], max_depth=60))
         service = str(flow.expr_of(b, st["args"][3], max_depth=60))
-        if "into_make_service" not in service:
+        if "into_make_service" not in service and not any(w in service for w in wrappers):
             continue
         resolved += 1
         tls = "rustls" in server
-        has_hdr = "SetClientIdentityFromHeader" in service
+        has_hdr = "SetClientIdentityFromHeader" in service or any(w in service for w in wrappers)
         on_true = flow.dominates(dom, true_bb, sbb) and not flow.dominates(dom, false_bb, sbb)
         on_false = flow.dominates(dom, false_bb, sbb)
         if tls:
@@ -492,7 +500,9 @@ def tls_arms(ctx, facts):
     for ob in facts.non_test_bodies():
         if ob.root == root:
             continue
-        if fn_refs(ob, hdr) or fn_refs(ob, crt):
+        if ob.path in wrappers or ob.root in wrappers:
+            continue
+        if fn_refs(ob, hdr) or fn_refs(ob, crt) or any((F.callee(t2)[0] or "") in wrappers for _, t2 in ob.calls()):
             others.add(ob.root)
     ctx.ob("ARM-tls", "no-other-users", not others, f"other users of the identity services: {sorted(others)}")
 
